@@ -1,5 +1,28 @@
 import SlVerif.Model.Buffered
 import SlVerif.Drv.Relay
+/-
+  Line protocol of the C17 model (token `buf`).
+
+    buf run <events> <calls>                      the underlying sink is always ready and never fails
+    buf run <events> <calls> <sink> <sends>       with scripted sink-side results
+
+    <events>  `-` or comma-separated results of the underlying `Stream::poll_next`:
+                `m:<hex|->` Ready(Some(frame))   `p` Pending   `c` Ready(None);   exhausted = Pending for ever
+    <calls>   comma-separated:
+                `r:<id hex>:<ttl>:<polls>`   recv(id, ttl) polled at most <polls> times, then dropped
+                `w:<id hex>+<id hex>…|-:<polls>`  wait_for(|id| id ∈ set) polled at most <polls> times, then dropped
+                `n`                          one Stream::poll_next of the wrapper
+    <sink>    `-` or comma-separated results of the underlying `Sink::poll_ready` / `Sink::poll_flush` calls, one entry
+              per call in call order:  `k` Ready(Ok)   `p` Pending   `e` Ready(Err);   exhausted = Ready(Ok) for ever
+    <sends>   `-` or comma-separated results of the underlying `Sink::start_send` calls:  `k` Ok   `e` Err;
+              exhausted = Ok for ever
+
+  Result (4-token form):
+    <outcomes , sep>;<final buffer + sep>;<script events left>;<accepted asks id:ttl + sep>
+  Result (6-token form): the same followed by
+    ;<sink entries left>;<sends entries left>
+  outcomes: `g:<hex>` Some(frame), `none` None, `cancel` still pending when dropped.
+-/
 namespace SlVerif.Drv.Buffered
 open SlVerif SlVerif.Buffered
 
@@ -8,6 +31,12 @@ def parseEv? (s : String) : Option Ev :=
   else match s.splitOn ":" with
     | ["m", h] => (hexToBytes? h).map Ev.msg
     | _ => none
+
+def parseSinkEv? (s : String) : Option SinkEv :=
+  if s = "k" then some .ok else if s = "p" then some .pending else if s = "e" then some .err else none
+
+def parseSend? (s : String) : Option Bool :=
+  if s = "k" then some true else if s = "e" then some false else none
 
 def parseCall? (s : String) : Option Call :=
   match s.splitOn ":" with
@@ -25,14 +54,26 @@ def outStr : Outcome → String
 
 def listOrDash (l : List String) (sep : String) : String := if l.isEmpty then "-" else String.intercalate sep l
 
-/-- `buf run <ev,ev,…|-> <call,call,…>` → `<outcomes , sep>;<final buffer + sep>;<script events left>;<asks id:ttl + sep>` -/
+def parseList? {α : Type} (f : String → Option α) (s : String) : Option (List α) :=
+  if s = "-" then some [] else (s.splitOn ",").mapM f
+
+def resultStr (s : State) (outs : List Outcome) : List String :=
+  [listOrDash (outs.map outStr) ",", listOrDash (s.buf.map bytesToHexW) "+",
+   toString s.script.length, listOrDash (s.asks.map fun (i, t) => s!"{bytesToHexW i}:{t}") "+"]
+
 def handle : List String → Option String
   | ["run", evs, calls] => do
-      let evs ← if evs = "-" then some [] else (evs.splitOn ",").mapM parseEv?
+      let evs ← parseList? parseEv? evs
       let calls ← (calls.splitOn ",").mapM parseCall?
       let (s, outs) := runCalls { script := evs } calls
-      some (String.intercalate ";" [listOrDash (outs.map outStr) ",", listOrDash (s.buf.map bytesToHexW) "+",
-        toString s.script.length, listOrDash (s.asks.map fun (i, t) => s!"{bytesToHexW i}:{t}") "+"])
+      some (String.intercalate ";" (resultStr s outs))
+  | ["run", evs, calls, sink, sends] => do
+      let evs ← parseList? parseEv? evs
+      let calls ← (calls.splitOn ",").mapM parseCall?
+      let sink ← parseList? parseSinkEv? sink
+      let sends ← parseList? parseSend? sends
+      let (s, outs) := runCalls { script := evs, sink := sink, sends := sends } calls
+      some (String.intercalate ";" (resultStr s outs ++ [toString s.sink.length, toString s.sends.length]))
   | _ => none
 
 end SlVerif.Drv.Buffered
